@@ -317,3 +317,30 @@ def agg_sites(body, pat):
         if any(r.search(n or "") for n in names):
             out.append((bb, s, e))
     return out
+
+
+def base_local(body, op, depth=6):
+    """the local a (possibly re-borrowed) operand ultimately refers to:
+    follows `_t = &mut _x`, `_t = &(*_y)`, `_t = move _z` chains"""
+    pl = op.get("copy") or op.get("move") if isinstance(op, dict) else op
+    if not pl:
+        return None
+    l = pl[0]
+    while depth > 0:
+        if body.locals[l]["k"] in ("arg", "var"):
+            return l
+        ds = body.defs().get(l, [])
+        if len(ds) != 1 or ds[0][0] != "=":
+            return l
+        rv = ds[0][3]
+        if rv["k"] in ("ref", "rawptr"):
+            l = rv["p"][0]
+        elif rv["k"] == "use":
+            p2 = rv["ops"][0].get("copy") or rv["ops"][0].get("move")
+            if not p2:
+                return l
+            l = p2[0]
+        else:
+            return l
+        depth -= 1
+    return l
